@@ -3,7 +3,7 @@
    stay the extracted inductive types. *)
 From Coq Require Import List ZArith NArith QArith Extraction ExtrOcamlBasic.
 From LMBase Require Import Res ListX IEEE.
-From LMPwm Require Import GenComplement PwmModel PwmCheck.
+From LMPwm Require Import GenComplement PwmModel PwmCheck PwmStat PwmStatCheck.
 
 Definition xf_of_bits := F32.of_bits.
 Definition xf_to_bits := F32.to_bits.
@@ -12,6 +12,7 @@ Definition f32_is_nan := F32.is_nan.
 Definition f32_le := F32.le.
 Definition f32_zero := F32.zero.
 Definition f32_ninf := F32.ninf.
+Definition f32_neg := F32.neg.
 
 Definition rc_f32 := @rc F32.t F32.zero dna_K dna_symbols dna_comp.
 Definition rc_N := @rc N 0%N dna_K dna_symbols dna_comp.
@@ -29,4 +30,7 @@ Extraction "pwm_model.ml"
   f32_to_Q f32_same f32_close fm_same fm_close cm_same row_same
   check_counts check_freq check_weight check_rescale check_score_cell check_window window_clean
   bg_must_reject freq_must_reject check_bg_counts bg_counts_spec check_rc_f32 check_rc_N complement_involutive_b
-  strand_symmetric check_mirror.
+  strand_symmetric check_mirror
+  f32_neg f32_sqrt conv_N conv_id dot norm auto_correlation cross_correlation
+  entropy consensus weight_information_content scoring_information_content weight_of_scoring
+  bg_from_counts_ovf check_consensus check_corr_range check_corr_sym check_entropy_range.
